@@ -104,6 +104,13 @@ fn gen_script(r: &mut Rng, i: u64, exact: bool, stats: &mut BTreeMap<String, u64
             }
             calls.push(GCall { tag: next_tag, gates_left: if gated { nseg as u32 - 1 } else { 0 }, aborted: false });
             next_tag += 1;
+            if r.chance(1, 14) {
+                // the call future is dropped before it has been polled once: nothing may happen
+                out.push(format!("abort {}", next_tag - 1));
+                calls.last_mut().unwrap().aborted = true;
+                calls.last_mut().unwrap().gates_left = 0;
+                bump(stats, "aborts_before_first_poll");
+            }
             settle(&mut out, r);
         } else if choice < 68 && !open.is_empty() {
             let k = *r.pick(&open);
